@@ -2,6 +2,18 @@
 HOOK_COMMITS = []
 NOT_APPLICABLE = {}
 CLAIMS = {
+    "C04": dict(
+        text="spec/Constraints.tla computes, in exact rationals, the solution of every sequence of up to 3 (quick) / 4 (thorough) Dirichlet and point-load conditions on three "
+        "systems (scalar chain; two dofs per node with unknown names given in any order; chain with an orphan node): dof lookup node*dof_n+index, sum convention for a dof "
+        "entered several times, even split of point loads, unit diagonal on orphan dofs, reduced solve by Cramer. TLC checks the definition's own consistency (prescribed "
+        "sums, equilibrium of free rows). Every TLC behaviour is replayed through add_dirichlet/add_neumann (constants, arrays, functions of position) and Solve() with "
+        "scipy, cg, bicg, gmres, lgmres, bounded least squares, the Lagrange-multiplier route and the Newton-incremental route; the returned vector and "
+        "Bc_vector_Dirichlet() are compared with TLC's rationals.",
+        note="Trusted: TLC, float-vs-rational comparison (1e-10 direct, 1e-4 Krylov). Lagrange route only when no dof is constrained twice (bordered system singular otherwise); "
+        "empty reduced systems are not sent to lsq_linear/lgmres. K is supplied by a _Simu subclass. PETSc/pypardiso are not installed.",
+        technique="TLA+ exact-rational model of constraint bookkeeping and reduced solve, TLC exhaustive; behaviours replayed into Solve() with every back end",
+        design_ref="DESIGN.md 6/C04",
+    ),
     "C03": dict(
         text="spec/Assembly.tla models the scatter-add computed through the reduction map memoised per (dof_n, isMatrix, Ndof, contributing groups in feeding order) "
         "on meshes with one to three element groups (boundary groups, mixed QUAD4+TRI3, a renumbered chain, an orphan node), slots absent for some groups, real and "
